@@ -2571,8 +2571,9 @@ impl<'a> FnTr<'a> {
                 }
             }
             // builder U: `x[a..b]`, `x[a..]`, `x[..b]` — a sub-slice (an invalid range is a panic)
-            Expr::Index(ix) if matches!(&*ix.index, Expr::Range(r) if matches!(r.limits, RangeLimits::HalfOpen(_))) => {
+            Expr::Index(ix) if matches!(&*ix.index, Expr::Range(r) if matches!(r.limits, RangeLimits::HalfOpen(_)) || r.end.is_some()) => {
                 let Expr::Range(r) = &*ix.index else { unreachable!() };
+                let closed = matches!(r.limits, RangeLimits::Closed(_));
                 let (a, ta) = self.ex(&ix.expr, env, st, None)?;
                 let el = match ta {
                     Ty::Arr(el) | Ty::HVec(el, _) => el,
@@ -2585,6 +2586,11 @@ impl<'a> FnTr<'a> {
                 let hi = match &r.end {
                     Some(e) => Some(self.ex(e, env, st, Some(Ty::Int("usize")))?.0),
                     None => None,
+                };
+                // `a..=b` is `a..b + 1` (the end bound itself overflowing is a panic)
+                let hi = match hi {
+                    Some(h) if closed => Some(self.act(st, format!("Rt.ck .usize ({} + 1)", h))),
+                    h => h,
                 };
                 let term = match (lo, hi) {
                     (Some(lo), Some(hi)) => format!("Rt.slice {} {} {}", paren(&a), paren(&lo), paren(&hi)),
